@@ -83,14 +83,16 @@ func verifHarness_C18_auto() {
 			want = "xml"
 		}
 	}
-	switch want {
-	case "form":
+	// the body is in the format the subtype *names* (also when the Content-Type as a whole is not a
+	// supported media type), so that a wrongly selected decoder would succeed and be noticed
+	switch {
+	case want == "form" || sub == "x-www-form-urlencoded":
 		body = "name=f"
-	case "json":
+	case want == "json" || sub == "json":
 		body = `{"name":"j"}`
-	case "xml":
+	case want == "xml" || sub == "xml":
 		body = `<verifUser><name>x</name></verifUser>`
-	case "multipart":
+	case want == "multipart" || sub == "form-data":
 		body = "--x\r\nContent-Disposition: form-data; name=\"name\"\r\n\r\nm\r\n--x--\r\n"
 	}
 	// emptySrc: the selected source carries no key at all (no query string, empty form)
@@ -139,7 +141,7 @@ func verifHarness_C18_auto() {
 		}
 		switch want {
 		case "error":
-			verifAssert(err != nil, "an unsupported Content-Type yields an error")
+			verifAssert(err != nil && obj.Name == "", "an unsupported Content-Type yields an error and binds nothing")
 		case "query":
 			verifAssert(err == nil && obj.Name == "q" && obj.Extra == "e", "methods without a body bind the query string")
 		case "form":
